@@ -173,12 +173,25 @@ CHILD_KEYS = ("f", "recv", "e", "a", "b", "l", "r", "cond", "then", "else", "scr
 LIST_KEYS = ("args", "elems", "stmts", "arms", "fields", "params", "pats", "before", "after")
 
 
-def children(n):
+PAT_KEYS = {"pat", "sub", "lo", "hi", "mid", "pats", "before", "after", "params"}
+
+
+def children(n, pats=True):
+    if n.get("k") == "Block":  # source order: statements, then the tail expression
+        for x in n.get("stmts", []):
+            yield x
+        if isinstance(n.get("expr"), dict):
+            yield n["expr"]
+        return
     for k in CHILD_KEYS:
+        if not pats and k in PAT_KEYS:
+            continue
         v = n.get(k)
         if isinstance(v, dict):
             yield v
     for k in LIST_KEYS:
+        if not pats and k in PAT_KEYS:
+            continue
         v = n.get(k)
         if isinstance(v, list):
             for x in v:
@@ -186,13 +199,14 @@ def children(n):
                     yield x
 
 
-def walk(n):
-    """Pre-order walk over every expression / statement / arm / field dict."""
+def walk(n, pats=True):
+    """Pre-order walk over every expression / statement / arm / field dict
+    (pats=False: do not descend into patterns)."""
     stack = [n]
     while stack:
         x = stack.pop()
         yield x
-        cs = list(children(x))
+        cs = list(children(x, pats))
         stack.extend(reversed(cs))
 
 
